@@ -4,21 +4,26 @@
 (* Part 1 - Prog: block-structured programs as a push-down system.  A program is a sequence   *)
 (* of lines; every line has a kind.  The grammar (what may follow what, which header owns     *)
 (* which '{') is the Grow action; TLC's reachable complete states are the derivations.        *)
-(*   func hdr switch ns cls ext   header lines: the next line is their '{'                    *)
+(*   func hdr elseh doh tryh catchh switch ns cls ext enumh                                    *)
+(*                                header lines: the next line is their '{' (hdr = if / loop,   *)
+(*                                elseh only after the block of an hdr, catchh after a try)    *)
 (*   open close                   '{' and '}' on their own lines (the default brace style)    *)
-(*   stmt                         a simple statement                                          *)
+(*   stmt                         a simple statement          dowhile   'while (c);' of a do   *)
 (*   case                         a case label (only directly inside a switch block)          *)
 (*   cbopen                       '{' that follows a case label                               *)
+(*   acc                          access specifier in a class   enumr   an enumerator line    *)
 (* Part 2 - the frame stack of indent_text() reduced to its closed form: Col(P, i) is the     *)
 (* column of the first token of line i, from the options that have a closed form.             *)
-EXTENDS Naturals, Sequences, FiniteSets, TLC, Json
+EXTENDS Naturals, Integers, Sequences, FiniteSets, TLC, Json
 CONSTANTS MaxLines, MaxDepth, Emit
 VARIABLES prog,      \* sequence of line kinds
-          stack      \* kinds of the open frames, innermost last
-vars == <<prog, stack>>
+          stack,     \* kinds of the open frames, innermost last
+          closed     \* kind of the frame the last '}' closed ("" when the last line is not a '}')
+vars == <<prog, stack, closed>>
 
-Headers == {"func", "hdr", "switch", "ns", "cls", "ext"}
-Kinds == Headers \cup {"open", "close", "stmt", "case", "cbopen"}
+Headers == {"func", "hdr", "elseh", "doh", "tryh", "catchh", "switch", "ns", "cls", "ext", "enumh"}
+Kinds == Headers \cup {"open", "close", "stmt", "case", "cbopen", "dowhile", "acc", "enumr"}
+Code == {"func", "hdr", "elseh", "doh", "tryh", "catchh", "cb"}       \* frames whose body is a statement list
 Top == IF stack = <<>> THEN "file" ELSE stack[Len(stack)]
 Last == IF prog = <<>> THEN "none" ELSE prog[Len(prog)]
 
@@ -26,19 +31,28 @@ Last == IF prog = <<>> THEN "none" ELSE prog[Len(prog)]
 CanAdd(k) ==
   LET top == Top
       last == Last
+      inCode == top \in Code \/ (top = "switch" /\ last \notin {"open"})
   IN IF last \in Headers THEN k = "open"                       \* a header owns the next '{'
      ELSE IF last = "case" /\ k = "cbopen" THEN TRUE
+     ELSE IF closed = "doh" THEN k = "dowhile"                 \* '}' of a do is followed by its while
+     ELSE IF closed = "tryh" THEN k = "catchh"                 \* a try has at least one handler
      ELSE CASE k = "open"   -> FALSE                           \* bare blocks are not generated: '{' always has a header
             [] k = "cbopen" -> FALSE
-            [] k = "close"  -> stack # <<>> /\ last # "case"    \* something stands under a case label before the block ends
+            [] k = "dowhile" -> FALSE
+            [] k = "close"  -> stack # <<>> /\ last \notin {"case", "acc"}   \* something stands under a label before the block ends
             [] k = "case"   -> top = "switch" /\ last # "case"
-            [] k = "stmt"   -> top \notin {"file"} /\ (top = "switch" => last \notin {"open"})
-            [] k = "hdr"    -> top \in {"func", "hdr", "cb"} \/ (top = "switch" /\ last \notin {"open"})
-            [] k = "switch" -> top \in {"func", "hdr", "cb"}
+            [] k = "stmt"   -> top \in Code \/ top = "cls" \/ (top = "switch" /\ last \notin {"open"})
+            [] k = "hdr"    -> inCode
+            [] k = "elseh"  -> closed = "hdr" /\ inCode
+            [] k = "catchh" -> closed = "catchh" /\ inCode
+            [] k \in {"doh", "tryh", "switch"} -> top \in Code
             [] k = "func"   -> top \in {"file", "ns", "cls", "ext"}
             [] k = "ns"     -> top \in {"file", "ns"}
             [] k = "cls"    -> top \in {"file", "ns"}
             [] k = "ext"    -> top = "file"
+            [] k = "enumh"  -> top \in {"file", "ns", "cls"} \cup Code
+            [] k = "enumr"  -> top = "enumh"
+            [] k = "acc"    -> top = "cls" /\ last # "acc"
             [] OTHER -> FALSE
 FrameOf(hdrKind) == hdrKind            \* the frame a '{' opens is named after its header
 Grow(k) == /\ Len(prog) < MaxLines /\ CanAdd(k)
@@ -48,10 +62,11 @@ Grow(k) == /\ Len(prog) < MaxLines /\ CanAdd(k)
                          [] k = "cbopen" -> Append(stack, "cb")
                          [] k = "close" -> SubSeq(stack, 1, Len(stack) - 1)
                          [] OTHER -> stack
-Init == prog = <<>> /\ stack = <<>>
+           /\ closed' = IF k = "close" THEN Top ELSE ""
+Init == prog = <<>> /\ stack = <<>> /\ closed = ""
 Next == \E k \in Kinds : Grow(k)
 Spec == Init /\ [][Next]_vars
-Complete == stack = <<>> /\ prog # <<>> /\ Last = "close"
+Complete == stack = <<>> /\ prog # <<>> /\ Last \in {"close", "dowhile"} /\ closed \notin {"doh", "tryh"}
 
 (* ------------------------------------------------------- structure of a program *)
 (* Structure(P) = for every line <<open, hdr>>: the index of the '{' line of the frame the    *)
@@ -73,12 +88,13 @@ FrameKind(P, o) == IF o = 0 THEN "file" ELSE IF P[o] = "cbopen" THEN "cb" ELSE P
 
 (* --------------------------------------------------- Part 2: the closed-form column *)
 (* opts: ic indent_columns; ns / cls / ext : indent_namespace / indent_class / indent_extern;  *)
-(* sc : indent_switch_case (columns); br : indent_braces; ib : indent_brace (columns)          *)
+(* sc : indent_switch_case (columns); br : indent_braces; ib : indent_brace (columns);         *)
+(* as : indent_access_spec (> 0 absolute column, <= 0 offset from the member column)           *)
 Indents(fk, o) == CASE fk = "ns" -> o.ns [] fk = "cls" -> o.cls [] fk = "ext" -> o.ext [] OTHER -> TRUE
 (* indent_braces moves the braces of every block whose body is indented one level in            *)
 BraceIndented(fk, o) == o.br /\ fk # "switch" /\ Indents(fk, o)
 (* indent_brace = n moves the braces of control blocks n columns in, and their bodies with them  *)
-Ib(fk, o) == IF fk \in {"hdr", "switch"} THEN o.ib ELSE 0
+Ib(fk, o) == IF fk \in {"hdr", "elseh", "doh", "tryh", "catchh", "switch"} THEN o.ib ELSE 0
 BraceShift(fk, o) == (IF BraceIndented(fk, o) THEN o.ic ELSE 0) + Ib(fk, o)
 RECURSIVE Col(_, _, _, _)
 (* column of line i; S = Structure(P) *)
@@ -93,19 +109,20 @@ Col(P, S, i, o) ==
               body == IF fk = "switch" THEN oc + o.sc
                       ELSE IF Indents(fk, o) THEN oc + o.ic ELSE oc
           IN IF fk = "switch" /\ k # "case" THEN body + o.ic        \* statements under a case label
+             ELSE IF k = "acc" THEN (IF o.as > 0 THEN o.as ELSE IF body + o.as < 1 THEN 1 ELSE body + o.as)   \* absolute column or offset
              ELSE body
 Cols(P, o) == LET S == Structure(P) IN [i \in 1..Len(P) |-> Col(P, S, i, o)]
 
 (* ------------------------------------------------------------------ properties *)
 (* judged on any column assignment c (the model's own, or the columns observed in real output) *)
-Siblings(P, S, i, j) == /\ S[i][1] = S[j][1] /\ P[i] \in {"stmt", "hdr", "switch", "func", "ns", "cls", "ext"}
-                        /\ P[j] \in {"stmt", "hdr", "switch", "func", "ns", "cls", "ext"}
+StmtKinds == {"stmt", "hdr", "elseh", "doh", "dowhile", "tryh", "catchh", "switch", "func", "ns", "cls", "ext", "enumh", "enumr"}
+Siblings(P, S, i, j) == /\ S[i][1] = S[j][1] /\ P[i] \in StmtKinds /\ P[j] \in StmtKinds
                         /\ (FrameKind(P, S[i][1]) = "switch" => (P[i] # "case" /\ P[j] # "case"))
 SameBlockSameColumn(P, c) == LET S == Structure(P) IN \A i, j \in 1..Len(P) : Siblings(P, S, i, j) => c[i] = c[j]
 OneLevelDeeper(P, c, o) ==
   LET S == Structure(P)
   IN \A i \in 1..Len(P) :
-       (S[i][1] # 0 /\ P[i] \in {"stmt", "hdr", "switch", "func", "cls", "ns"} /\ FrameKind(P, S[i][1]) \notin {"switch"}) =>
+       (S[i][1] # 0 /\ P[i] \in StmtKinds /\ FrameKind(P, S[i][1]) \notin {"switch"}) =>
           LET fk == FrameKind(P, S[i][1])
               h == S[S[i][1]][2]                         \* header line of the enclosing '{'
               hc == IF fk = "cb" THEN c[h] ELSE c[h]
@@ -120,10 +137,10 @@ BracePlacement(P, c, o) ==
   LET S == Structure(P)
   IN \A i \in 1..Len(P) :
        /\ (P[i] = "open" => c[i] = c[S[i][2]] + BraceShift(FrameKind(P, i), o))
-       /\ ((S[i][1] # 0 /\ FrameKind(P, S[i][1]) = "switch" /\ P[i] \in {"case", "stmt", "hdr", "switch"}) =>
+       /\ ((S[i][1] # 0 /\ FrameKind(P, S[i][1]) = "switch" /\ P[i] \in StmtKinds \cup {"case"}) =>
               LET h == S[S[i][1]][2]
               IN c[i] = c[h] + o.ib + o.sc + (IF P[i] = "case" THEN 0 ELSE o.ic))
-DefaultOpts == [ic |-> 4, ns |-> FALSE, cls |-> FALSE, ext |-> FALSE, sc |-> 0, br |-> FALSE, ib |-> 0]
+DefaultOpts == [ic |-> 4, ns |-> FALSE, cls |-> FALSE, ext |-> FALSE, sc |-> 0, br |-> FALSE, ib |-> 0, as |-> 1]
 ModelConsistent == Complete =>
    \A o \in {DefaultOpts, [DefaultOpts EXCEPT !.ns = TRUE, !.cls = TRUE, !.ext = TRUE, !.ic = 3], [DefaultOpts EXCEPT !.sc = 4],
              [DefaultOpts EXCEPT !.ib = 2], [DefaultOpts EXCEPT !.br = TRUE]} :
